@@ -31,12 +31,12 @@ func TestVerif(t *testing.T) {
 
 // ---------- value construction ----------
 
-func u64p(v uint64) *uint64          { return &v }
-func intp(v int) *int                { return &v }
-func boolp(v bool) *bool             { return &v }
-func strp(v string) *string          { return &v }
+func u64p(v uint64) *uint64               { return &v }
+func intp(v int) *int                     { return &v }
+func boolp(v bool) *bool                  { return &v }
+func strp(v string) *string               { return &v }
 func durp(v time.Duration) *time.Duration { return &v }
-func f64p(v float64) *float64        { return &v }
+func f64p(v float64) *float64             { return &v }
 
 var valDurations = []time.Duration{10 * time.Microsecond, time.Second, 1000010 * time.Microsecond, 3599999990 * time.Microsecond, 6006 * time.Millisecond}
 var valTimes = []time.Time{
@@ -202,7 +202,7 @@ func multiF1(mask int, vs int) *Multivariant {
 		}
 		m.Start = &MultivariantStart{TimeOffset: off}
 	}
-	v := &MultivariantVariant{Bandwidth: []int{1, 2, 2147483647}[vs%3], Codecs: []string{"avc1.64001f", "mp4a.40.2"}[: 1+vs%2], URI: "v" + strconv.Itoa(vs) + ".m3u8"}
+	v := &MultivariantVariant{Bandwidth: []int{1, 2, 2147483647}[vs%3], Codecs: []string{"avc1.64001f", "mp4a.40.2"}[:1+vs%2], URI: "v" + strconv.Itoa(vs) + ".m3u8"}
 	if bit(2) {
 		v.AverageBandwidth = intp(valInts[(vs+1)%3])
 	}
@@ -1184,4 +1184,3 @@ func c15Run(c *vh.Ctx) {
 		c.Count("decoder_inputs_accepted", okN)
 	}
 }
-
